@@ -33,6 +33,7 @@ func checkC01(ctx *Ctx, r *Report) {
 	c01TypeNameClauses(ctx, r)
 	c01SiblingReplacements(ctx, r)
 	c06NullableGuardExact(ctx, r)
+	c06EnumMemberNamesVerbatim(ctx, r)
 	c01DiscriminatorDistinct(ctx, r)
 	c01MapOnlyWithoutProperties(ctx, r)
 	c01GoFieldTypeOverride(ctx, r)
